@@ -1820,10 +1820,10 @@ func (query *Query) exec() (result any, err error) {
 		rs = nil
 		goto FINALIZE
 	}
-	if limit >= len(rs) {
-		limit = len(rs)
+	if limit > len(rs)-offset {
+		limit = len(rs) - offset
 	}
-	rs = rs[offset:][:limit]
+	rs = rs[offset : offset+limit : offset+limit]
 FINALIZE:
 	if query.options.completed != nil {
 		query.options.completed()
